@@ -14,7 +14,7 @@
       (end_i < off_(i+1)); zero-length ranges may remain, with the same spacing;
     - [sortmerge_rel s out]: out is a result of References.SortAndMerge on s for
       SOME order the unstable sort.Slice may produce (every permutation sorted
-      w.r.t. compareReferenceType);  [exclude_rel s exc out] likewise for
+      w.r.t. compareReferenceType; lists of every length, the empty one included);  [exclude_rel s exc out] likewise for
       s.Exclude(exc...);
     - [Distinguishable s]: distinct artifacts have distinct type names (and
       vice versa) and every artifact is used with one address mapper. *)
@@ -102,11 +102,12 @@ Proof. exact sortmerge_den. Qed.
 Print Assumptions C11_sortmerge_den.
 
 (** Normal form: one entry per (artifact, address space), every entry's ranges
-    separated.  PARTIAL: needs [Distinguishable s] (compareReferenceType looks at
-    type names only and never at the mapper: finding C11-D6) and at least two
-    references (a shorter list is returned untouched: finding C11-D24). *)
+    separated -- for lists of every length, a single reference included (its
+    ranges are sorted and merged too).  PARTIAL: needs [Distinguishable s]
+    (compareReferenceType looks at type names only and never at the mapper:
+    finding C11-D6). *)
 Theorem C11_sortmerge_normal_partial : forall s out,
-  Distinguishable s -> NoOverflow s -> (2 <= length s)%nat ->
+  Distinguishable s -> NoOverflow s ->
   sortmerge_rel s out -> NormalRefs out.
 Proof. exact sortmerge_normal. Qed.
 Print Assumptions C11_sortmerge_normal_partial.
@@ -121,10 +122,10 @@ Definition wB := mkArt 2 0 true [9; 9; 9; 9].
 
 (** Without it: references A, B, A over two different RawBytes artifacts stay three entries. *)
 Theorem C11_sortmerge_normal_refuted : exists s out,
-  NoOverflow s /\ (2 <= length s)%nat /\ sortmerge_rel s out /\ ~ NormalRefs out.
+  NoOverflow s /\ sortmerge_rel s out /\ ~ NormalRefs out.
 Proof.
   exists [mkRef wA MNil [mkR 0 2]; mkRef wB MNil [mkR 1 2]; mkRef wA MNil [mkR 2 2]].
-  eexists. split; [apply no_overflowb_spec; reflexivity|]. split; [cbn; lia|]. split.
+  eexists. split; [apply no_overflowb_spec; reflexivity|]. split.
   - apply (refs_sm_rel [0; 1; 2]%nat). vm_compute. reflexivity.
   - intros (N & _). vm_compute in N. inversion N as [|? ? NI _]. apply NI. right. left. reflexivity.
 Qed.
@@ -132,26 +133,26 @@ Print Assumptions C11_sortmerge_normal_refuted.
 
 (** Same artifact, mappers m, nil, m: the mapper is never compared, so the two m-entries are not grouped. *)
 Theorem C11_sortmerge_normal_mapper_refuted : exists s out,
-  NoOverflow s /\ (2 <= length s)%nat /\ sortmerge_rel s out /\ ~ NormalRefs out.
+  NoOverflow s /\ sortmerge_rel s out /\ ~ NormalRefs out.
 Proof.
   exists [mkRef wA (MCustom 1 false 100) [mkR 0 2]; mkRef wA MNil [mkR 1 2]; mkRef wA (MCustom 1 false 100) [mkR 2 2]].
-  eexists. split; [apply no_overflowb_spec; reflexivity|]. split; [cbn; lia|]. split.
+  eexists. split; [apply no_overflowb_spec; reflexivity|]. split.
   - apply (refs_sm_rel [0; 1; 2]%nat). vm_compute. reflexivity.
   - intros (N & _). vm_compute in N. inversion N as [|? ? NI _]. apply NI. right. left. reflexivity.
 Qed.
 Print Assumptions C11_sortmerge_normal_mapper_refuted.
 
-(** A one-element list is returned as it is: its ranges are neither sorted nor merged. *)
-Theorem C11_sortmerge_normal_short_refuted : exists s out,
-  Distinguishable s /\ NoOverflow s /\ sortmerge_rel s out /\ ~ NormalRefs out.
+(** A one-element list: its ranges are sorted and merged (the input of the former
+    finding C11-D24, where the list was returned as it was). *)
+Example C11_ex_sortmerge_single :
+  sortmerge_rel [mkRef wA MNil [mkR 2 2; mkR 0 3]] [mkRef wA MNil [mkR 0 4]].
+Proof. apply (refs_sm_rel [0]%nat). vm_compute. reflexivity. Qed.
+
+(** ... and the empty list stays empty. *)
+Example C11_ex_sortmerge_empty : forall out, sortmerge_rel [] out -> out = [].
 Proof.
-  exists [mkRef wA MNil [mkR 2 2; mkR 0 3]]. eexists.
-  split; [apply distinguishableb_spec; reflexivity|].
-  split; [apply no_overflowb_spec; reflexivity|]. split.
-  - apply (refs_sm_rel []). reflexivity.
-  - intros (_ & F). inversion F as [|? ? S _]. cbn in S. lia.
+  intros out (_ & s' & P & _ & ->). apply Permutation_nil in P. subst s'. reflexivity.
 Qed.
-Print Assumptions C11_sortmerge_normal_short_refuted.
 
 (** ** References.Exclude *)
 
@@ -182,7 +183,7 @@ Theorem C11_exclude_refuted : exists s exc out,
 Proof.
   exists [mkRef wA MNil [mkR 0 4]], [mkRef wB MNil [mkR 1 2]]. eexists.
   split; [apply no_overflowb_spec; reflexivity|]. split.
-  - apply (refs_exclude_rel [] []). vm_compute. reflexivity.
+  - apply (refs_exclude_rel [0]%nat [0]%nat). vm_compute. reflexivity.
   - exists 1, MNil, 1. split; [apply denb_spec; reflexivity|].
     split; apply denb_false; reflexivity.
 Qed.
@@ -195,7 +196,7 @@ Theorem C11_exclude_space_refuted : exists s exc out,
 Proof.
   exists [mkRef wA MPhys [mkR 0 4]], [mkRef wA MNil [mkR 1 2]]. eexists.
   split; [apply no_overflowb_spec; reflexivity|]. split.
-  - apply (refs_exclude_rel [] []). vm_compute. reflexivity.
+  - apply (refs_exclude_rel [0]%nat [0]%nat). vm_compute. reflexivity.
   - exists 1, MPhys, 1. split; [apply denb_spec; reflexivity|].
     split; apply denb_false; reflexivity.
 Qed.
@@ -261,8 +262,8 @@ Definition xs : list ref :=
 Definition xexc : list ref :=
   [ mkRef xImg MPhys [mkR 4294967290 3]; mkRef xRaw MNil [mkR 1 3] ].
 
-Example C11_ex_hyps : Distinguishable (xs ++ xexc) /\ NoOverflow (xs ++ xexc) /\ (2 <= length xs)%nat.
-Proof. split; [apply distinguishableb_spec; reflexivity|]. split; [apply no_overflowb_spec; reflexivity | cbn; lia]. Qed.
+Example C11_ex_hyps : Distinguishable (xs ++ xexc) /\ NoOverflow (xs ++ xexc).
+Proof. split; [apply distinguishableb_spec; reflexivity | apply no_overflowb_spec; reflexivity]. Qed.
 
 Example C11_ex_sortmerge :
   sortmerge_rel xs [ mkRef xImg MPhys [mkR 4294967288 6];
